@@ -9,6 +9,7 @@ package drv
 
 import (
 	"fmt"
+	"reflect"
 
 	"github.com/gregoryv/mq"
 
@@ -422,6 +423,21 @@ func Apply(p mq.Packet, o Op) error {
 			return fmt.Errorf("drv: %T has no setter for property 0x%02x", p, o.ID)
 		}
 	case "userprops":
+		if o.Flag {
+			// the exported, embedded UserProperties field is public API too:
+			// p.UserProperties = append(p.UserProperties, mq.UserProp{k, v})
+			v := reflect.ValueOf(p)
+			if v.Kind() == reflect.Ptr && v.Elem().Kind() == reflect.Struct {
+				if f := v.Elem().FieldByName("UserProperties"); f.IsValid() && f.CanSet() {
+					ups := f.Interface().(mq.UserProperties)
+					for _, kv := range o.KV {
+						ups = append(ups, mq.UserProp{string(kv[0]), string(kv[1])})
+					}
+					f.Set(reflect.ValueOf(ups))
+					return nil
+				}
+			}
+		}
 		x, ok := p.(interface{ AddUserProp(...string) })
 		if !ok {
 			return bad()
